@@ -6926,6 +6926,10 @@ def aten_nansum(
 def aten_narrow(self: TTensor, dim: INT64, start: INT64, length: INT64) -> TTensor:
     """narrow(Tensor(a) self, int dim, SymInt start, SymInt length) -> Tensor(a)"""
 
+    if isinstance(start, int) and start < 0 and isinstance(dim, int) and isinstance(self.shape[dim], int):
+        # PyTorch wraps a negative start once; Slice(start, start + length) would end at 0 or below
+        start = start + self.shape[dim]
+
     dim = op.Reshape(dim, op.Constant(value_ints=[-1]))
     start = op.Reshape(start, op.Constant(value_ints=[-1]))
     length = op.Reshape(length, op.Constant(value_ints=[-1]))
